@@ -181,6 +181,9 @@ def hole(c, name, n, allowed):
                           z3.And(z3.UGE(e, 48), z3.ULE(e, 57)))
             if allowed == 'token':
                 c.assume(z3.Or(alnum, e == 45))
+            elif allowed == 'token+':
+                # token characters plus the other visible ASCII characters that are not header structure (incl. { } %)
+                c.assume(z3.Or(alnum, *[e == ord(ch) for ch in "-{}%!#$&'*+.^_`|~"]))
             elif allowed == 'b64':
                 c.assume(z3.Or(alnum, e == 43, e == 47, e == 61))
         out.append(b)
@@ -212,7 +215,7 @@ def run_reply(c, P):
     ws = L.WebSocket('ws://example.com/', protocols=['chat'], compress=True)
     # ---- holes
     status = hole(c, 's', 3, 'any') if P.get('sym_status', True) else list(b'101')
-    upg = hole(c, 'u', 9, 'token')
+    upg = hole(c, 'u', 9, P.get('upgrade_class', 'token'))
     acc = hole(c, 'a', 28, 'b64')
     tname = P.get('templates', TEMPLATES)
     t = tname[c.choose(len(tname), 'tmpl')]
